@@ -15,7 +15,7 @@
 (***************************************************************************)
 EXTENDS Naturals, Sequences, FiniteSets, TLC, Json
 
-CONSTANTS Scenarios   \* sequence of [kind: "lifecycle" | "peercache", ops: Seq(value), waiters: set, calls: Nat, cancel: BOOLEAN]
+CONSTANTS Scenarios   \* sequence of [kind: "lifecycle" | "peercache", ops: Seq(value), waiters: set, calls: Nat, cancel: "none" | "all" | a waiter name]
 
 VARIABLES si, L, val, open, gen, closed,
           opi, upc, upre,
@@ -40,8 +40,8 @@ Init == /\ si \in DOMAIN Scenarios
         /\ wok = [w \in Scenarios[si].waiters |-> TRUE]
         /\ wcalls = [w \in Scenarios[si].waiters |-> 0]
         /\ rets = [w \in Scenarios[si].waiters |-> <<>>]
-        /\ done = FALSE
-        /\ cpc = IF Scenarios[si].cancel THEN "start" ELSE "none"
+        /\ done = {}
+        /\ cpc = IF Scenarios[si].cancel # "none" THEN "start" ELSE "none"
         /\ h = <<>>
 Sched(t, to) == UNCHANGED si /\ h' = Append(h, [d |-> t, act |-> "step", to |-> to])
 
@@ -98,8 +98,8 @@ W4(w) == /\ wpc[w] = "W4"
          /\ UNCHANGED <<closed, wpre, seen, wok, wcalls, rets>> /\ WUnch /\ Sched(w, "W5")
 W5(w) == /\ wpc[w] = "W5"
          /\ \/ /\ wgen[w] \in closed /\ wok' = [wok EXCEPT ![w] = TRUE] /\ wpc' = [wpc EXCEPT ![w] = "W6"]
-            \/ /\ done /\ wok' = [wok EXCEPT ![w] = FALSE] /\ wpc' = [wpc EXCEPT ![w] = "W6"]
-            \/ /\ wgen[w] \notin closed /\ ~done /\ wpc' = [wpc EXCEPT ![w] = "Wp"] /\ UNCHANGED wok
+            \/ /\ w \in done /\ wok' = [wok EXCEPT ![w] = FALSE] /\ wpc' = [wpc EXCEPT ![w] = "W6"]
+            \/ /\ wgen[w] \notin closed /\ w \notin done /\ wpc' = [wpc EXCEPT ![w] = "Wp"] /\ UNCHANGED wok
          /\ UNCHANGED <<L, open, gen, closed, wpre, seen, wgen, wcalls, rets>> /\ WUnch /\ Sched(w, wpc'[w])
 W6(w) == /\ wpc[w] = "W6" /\ L = "none"
          /\ IF wok[w] THEN Body(w)
@@ -116,9 +116,10 @@ WG(w) == /\ wpc[w] = "WG" /\ L = "none"
 
 CStart == /\ cpc = "start" /\ cpc' = "c_cancel"
           /\ UNCHANGED <<L, val, open, gen, closed, opi, upc, upre, wpc, wpre, seen, wgen, wok, wcalls, rets, done>> /\ Sched(Canc, "c_cancel")
-Cancel == /\ cpc = "c_cancel" /\ cpc' = "done" /\ done' = TRUE
-          /\ wpc' = [w \in Waiters |-> IF wpc[w] = "Wp" THEN "W6" ELSE wpc[w]]
-          /\ wok' = [w \in Waiters |-> IF wpc[w] = "Wp" THEN FALSE ELSE wok[w]]
+Targets == IF Sc.cancel = "all" THEN Waiters ELSE {Sc.cancel} \cap Waiters
+Cancel == /\ cpc = "c_cancel" /\ cpc' = "done" /\ done' = Targets
+          /\ wpc' = [w \in Waiters |-> IF wpc[w] = "Wp" /\ w \in Targets THEN "W6" ELSE wpc[w]]
+          /\ wok' = [w \in Waiters |-> IF wpc[w] = "Wp" /\ w \in Targets THEN FALSE ELSE wok[w]]
           /\ UNCHANGED <<L, val, open, gen, closed, opi, upc, upre, wpre, seen, wgen, wcalls, rets>> /\ Sched(Canc, "done")
 
 Next == \/ UStart \/ UPre \/ UL \/ UB \/ CStart \/ Cancel
@@ -128,6 +129,6 @@ Quiescent == ~ ENABLED Next
 -----------------------------------------------------------------------------
 NoDeadlock == Quiescent => upc = "done" /\ \A w \in Waiters : wpc[w] \in {"done", "Wp"}
 NoMissedUpdate == Quiescent => \A w \in Waiters : wpc[w] = "Wp" => seen[w] = val
-CancelReleases == (Quiescent /\ done) => \A w \in Waiters : wpc[w] = "done"
+CancelReleases == Quiescent => \A w \in done : wpc[w] = "done"
 Dump == Quiescent => PrintT(<<"SCRIPT", ToJson(h \o <<[d |-> "-", act |-> "final", to |-> "-", si |-> si]>>)>>)
 =============================================================================
